@@ -57,6 +57,10 @@ CLAIMS = {
    text="Structural clauses of the number-set types: no `n <= bound; n++` enumeration loop over an unsigned variable with a run-time bound can wrap at the type's maximum; every unsafe.Pointer cast between the public SeqSet/UIDSet/SeqRange/UIDRange/[]UID types and the internal imapnum ones is between layout-identical types (field names in order, offsets, sizes under the target's types.Sizes; 6 casts); every public set method delegates to the same-named internal method with its parameters in order (14 methods). 'other': preconditions of the set behaviour; the set algebra, canonical form and parse/print laws are value-level and not decided.",
    technique="type-layout comparison with go/types Sizes, loop-shape (integer wrap) rule and argument-provenance rule over go/ssa",
    design="§4 C15"),
+ "C16": dict(
+   text="Only the chunking clauses of the modified UTF-7 transformers are decided: ErrShortSrc on a non-final chunk that ends inside a unit, a destination-space check (returning ErrShortDst) before every write into dst, and nSrc advanced only after that check — for both Transform methods. These are the structural necessary conditions of 'regardless of how the transformer's buffers are chunked'. 'other' and deliberately narrow: losslessness, the decoder's rejection set, valid-UTF-8-only output and panic-freedom of the base64/UTF-16 arithmetic are value-level and NOT decided.",
+   technique="typed-AST ordering rules (check-before-write, check-before-advance) on the transform.Transformer implementations",
+   design="§4 C16"),
  "C17": dict(
    text="STARTTLS boundary clauses on both sides, for all paths: after the OK the server re-seats br and bw on a stream derived only from tls.Server (value-flow through wrapReadWriter, whose body is checked) and installs the TLS conn, holding the write lock across the switch; the client re-seats br/bw on tls.Client in upgradeStartTLS, which is called only after the CRLF of the tagged OK of a successful STARTTLS command; NewStartTLS returns a client only on State()==NotAuthenticated and closes it otherwise; AUTH=/LOGINDISABLED/STARTTLS advertisement tied to canAuth/canStartTLS edges and canStartTLS's truth table (2x5x2) evaluated exhaustively. 'other': the re-seating is the structural necessary condition for 'early plaintext is never parsed as protected data'; crypto/tls itself is trusted.",
    technique="value-flow (derives-only-from) and must-pass-through dataflow over go/ssa, exhaustive finite-domain evaluation of canStartTLS",
@@ -73,7 +77,6 @@ CLAIMS = {
 
 NOT_APPLICABLE = {
  "C07": "sequence-number arithmetic over update histories is value-level; no structural necessary condition beyond those checked under C08/C14",
- "C16": "byte-transducer losslessness/rejection set over all strings and chunkings is value-level; discharging the 24 unproven bounds checks needs a relational interval domain that is not available offline",
  "C20": "wildcard-matching semantics of a string function over all (name, reference, pattern) triples is value-level",
 }
 
